@@ -8,6 +8,8 @@ package main
 import (
 	"go/token"
 	"go/types"
+	"math/big"
+	"os"
 	"sort"
 
 	"golang.org/x/tools/go/ssa"
@@ -416,4 +418,198 @@ func fieldNameAt(base ssa.Value, f int) string {
 		return st.Field(f).Name()
 	}
 	return "member#" + itoa(f)
+}
+
+// R7.12 — literal conversion does not wrap. A tokenizer that turns digits into a number by its own
+// multiply-and-add loop (instead of strconv) must not let the accumulator leave the range of its type:
+// a wrapped accumulator that happens to land back in range is accepted as an unrelated value
+// (18446744073709551617 read as 1). Every multiplication and left shift of integers in the tokenizers
+// and the escape reader must be proven in range by the interval analysis (a per-step bound test, a
+// bounded digit count, constants).
+func c7LiteralAccumulation(p *Prog, r *Report) {
+	const rule = "R7.12-literal-accumulation"
+	pkgs := map[string]bool{pParser: true, pSchemaPar: true, pRust: true}
+	scope := func(f *ssa.Function) bool { return pkgs[fnPkgPath(f)] && len(f.Blocks) > 0 }
+	e := newIvEngine(p, scope)
+	var fns []*ssa.Function
+	for _, fn := range p.Funcs {
+		if scope(fn) && fn.Synthetic == "" {
+			fns = append(fns, fn)
+		}
+	}
+	sort.Slice(fns, func(i, j int) bool { return fns[i].String() < fns[j].String() })
+	n := 0
+	for _, fn := range fns {
+		var ops []*ssa.BinOp
+		forEachInstr(fn, func(in ssa.Instruction) {
+			bo, ok := in.(*ssa.BinOp)
+			if !ok || (bo.Op != token.MUL && bo.Op != token.SHL) {
+				return
+			}
+			k := kindOfType(bo.Type())
+			if !k.ok || k.float {
+				return
+			}
+			ops = append(ops, bo)
+		})
+		if len(ops) == 0 {
+			continue
+		}
+		a := e.analyze(fn, nil)
+		seen := map[string]int{}
+		for _, bo := range ops {
+			n++
+			k := kindOfType(bo.Type())
+			l, rr := a.get(bo.X, bo.Block()), a.get(bo.Y, bo.Block())
+			q := fnQual(fn) + ":" + bo.Op.String()
+			seen[q]++
+			if seen[q] > 1 {
+				q += "#" + itoa(seen[q])
+			}
+			var res ival
+			okRange := false
+			if !l.top && !rr.top && !l.float && !rr.float {
+				if bo.Op == token.MUL {
+					res = mulI(l, rr)
+					okRange = k.contains(res)
+				} else if rr.lo.Sign() >= 0 && rr.hi.IsInt64() && rr.hi.Int64() < 64 && l.lo.Sign() >= 0 {
+					res = ibig(new(big.Int).Lsh(l.lo, uint(rr.lo.Int64())), new(big.Int).Lsh(l.hi, uint(rr.hi.Int64())))
+					okRange = k.contains(res)
+				}
+			}
+			if !okRange {
+				if why, ok := c7BoundedAccumulator(a, bo, k); ok {
+					r.OK(rule, q, p.pos(bo.Pos()), why)
+					continue
+				}
+			}
+			if okRange {
+				r.OK(rule, q, p.pos(bo.Pos()), "operands in "+l.String()+" and "+rr.String()+": the result stays in the type's range")
+			} else {
+				r.Viol(rule, q, p.pos(bo.Pos()), fnShort(fn)+" computes "+l.String()+" "+bo.Op.String()+" "+rr.String()+" in "+types.TypeString(bo.Type(), nil)+" with nothing that keeps the result in range: an accumulator that wraps around and lands back in range is accepted as an unrelated value instead of being rejected as out of range")
+			}
+		}
+	}
+	if n == 0 {
+		r.OK(rule, "tokenizers:no-accumulation", "-", "no integer multiplication or left shift in the tokenizers and the escape reader (numbers are converted by strconv)")
+	}
+}
+
+// c7BoundedAccumulator recognises `acc = c*acc + d` in a loop that also counts its steps, where the accumulated
+// value is looked at, outside the loop, only where the step count is known to be at most K and c^K fits the type:
+// whatever the accumulator wrapped to after more than K steps is never used.
+func c7BoundedAccumulator(a *ivFn, bo *ssa.BinOp, k numKind) (string, bool) {
+	if bo.Op != token.MUL {
+		return "", false
+	}
+	acc, _ := bo.X.(*ssa.Phi)
+	cv := bo.Y
+	if acc == nil {
+		acc, _ = bo.Y.(*ssa.Phi)
+		cv = bo.X
+	}
+	c, isC := constInt(cv)
+	if acc == nil || !isC || c < 2 {
+		return "", false
+	}
+	// the product's only use is the addition of a digit in [0, c-1], which flows back into the accumulator
+	refs := *bo.Referrers()
+	if len(refs) != 1 {
+		return "", false
+	}
+	sum, ok := refs[0].(*ssa.BinOp)
+	if !ok || sum.Op != token.ADD {
+		return "", false
+	}
+	d := sum.Y
+	if d == ssa.Value(bo) {
+		d = sum.X
+	}
+	di := a.get(d, sum.Block())
+	if di.top || di.float || di.lo.Sign() < 0 || !di.hi.IsInt64() || di.hi.Int64() > 1<<16 {
+		if os.Getenv("CEDARCHECK_DEBUG") != "" {
+			println("R7.12 accumulator: digit interval", di.String())
+		}
+		return "", false
+	}
+	back, zero := false, false
+	for _, e := range acc.Edges {
+		if e == ssa.Value(sum) {
+			back = true
+		} else if z, isZ := constInt(e); isZ && z == 0 {
+			zero = true
+		} else {
+			return "", false
+		}
+	}
+	if !back || !zero {
+		return "", false
+	}
+	// a step counter in the same loop header, incremented in the block of the multiplication
+	var cnt *ssa.Phi
+	for _, in := range acc.Block().Instrs {
+		ph, ok := in.(*ssa.Phi)
+		if !ok || ph == acc {
+			continue
+		}
+		good := len(ph.Edges) == 2
+		inc := false
+		for _, e := range ph.Edges {
+			if z, isZ := constInt(e); isZ && z == 0 {
+				continue
+			}
+			b2, isB := e.(*ssa.BinOp)
+			one, isOne := ssa.Value(nil), false
+			if isB && b2.Op == token.ADD && b2.X == ssa.Value(ph) {
+				one = b2.Y
+				if o, ok := constInt(one); ok && o == 1 {
+					isOne = true
+				}
+			}
+			if isOne && b2.Block() == bo.Block() {
+				inc = true
+			} else {
+				good = false
+			}
+		}
+		if good && inc {
+			cnt = ph
+			break
+		}
+	}
+	if cnt == nil {
+		return "", false
+	}
+	// every other look at the accumulated value happens where the count is bounded
+	maxK := int64(-1)
+	check := func(v ssa.Value, skip ssa.Instruction) bool {
+		for _, u := range *v.Referrers() {
+			if u == skip || u == ssa.Instruction(acc) {
+				continue
+			}
+			if _, isDbg := u.(*ssa.DebugRef); isDbg {
+				continue
+			}
+			ci := a.get(cnt, u.Block())
+			if ci.top || ci.float || !ci.hi.IsInt64() || ci.hi.Int64() > 64 {
+				return false
+			}
+			if ci.hi.Int64() > maxK {
+				maxK = ci.hi.Int64()
+			}
+		}
+		return true
+	}
+	if !check(acc, bo) || !check(sum, nil) {
+		return "", false
+	}
+	if maxK < 0 {
+		return "", false
+	}
+	lim := new(big.Int).Exp(big.NewInt(c), big.NewInt(maxK), nil)
+	lim.Mul(lim, new(big.Int).Add(di.hi, big.NewInt(1))) // acc_K <= D*(c^K-1)/(c-1) <= (D+1)*c^K for digits in [0, D]
+	if !k.contains(ibig(big.NewInt(0), lim)) {
+		return "", false
+	}
+	return "accumulator of at most " + itoa(int(maxK)) + " base-" + itoa(int(c)) + " digits: it is read only where the step count is bounded, and " + itoa(int(c)) + "^" + itoa(int(maxK)) + " fits the type", true
 }
